@@ -140,7 +140,7 @@ def check_vec(ctx, config, rule):
     rb = [b for b in db.fn_bodies() if b['kind'] == 'assoc_fn' and 'FromIteratorIn<std::result::Result<T, E>>>::from_iter_in' in b['id'].replace('core::', 'std::')]
     for b in rb:
         I, r = arena.run_fn(ctx, b['id'], config)
-        cc = own_calls(r, trait='CollectIn::collect_in')
+        cc = own_calls(r, trait='CollectIn::collect_in') + [e for e in own_calls(r, trait='FromIteratorIn::from_iter_in') if e.callee != b['id']]
         alts = [t for t, _ in arena.alternatives(I, r.ret, set())] if r.ret is not None else []
         okv = len(cc) == 1 and cc[0].args[1] == ('param', 2) and any(t[0] == 'agg' and t[2] == 'Ok' and field_of(t, '0') == cc[0].ret for t in alts) and any(t[0] == 'agg' and t[2] == 'Err' for t in alts) and len(alts) == 2
         C.check('FromIteratorIn for Result', 'Ok(container collected from the Ok items) unless an Err item was seen, then that Err', okv, '', b.get('span'))
@@ -152,14 +152,25 @@ def check_vec(ctx, config, rule):
             somes = [t for t in calts if t[0] == 'agg' and t[2] == 'Some']
             nones = [t for t in calts if t[0] == 'agg' and t[2] == 'None']
             st = [e for e in r2.events if e.kind == 'store' and e.val[0] == 'agg' and e.val[2] == 'Some']
-            okc = len(somes) == 1 and 'as Ok' in show(somes[0]) and len(nones) >= 2 and len(st) == 1 and 'as Err' in show(st[0].val) and 'upvar' in show_lv(st[0].lv)
+            def variant_payload(t, variant):
+                # (item as <variant>).0 of an item that came out of Iterator::next
+                return isinstance(t, tuple) and t[:2] == ('app', 'vproj') and t[3] == variant and any(isinstance(x, tuple) and x and x[0] == 'call' and x[1].endswith('Iterator::next') for x in subterms(t[2]))
+            okc = len(somes) == 1 and ('as Ok' in show(somes[0]) or variant_payload(field_of(somes[0], '0'), 'Ok')) and len(nones) >= 2 and len(st) == 1 \
+                and ('as Err' in show(st[0].val) or variant_payload(field_of(st[0].val, '0'), 'Err')) and ('upvar' in show_lv(st[0].lv) or 'upvar' in repr(st[0].lv))
         C.check('FromIteratorIn for Result', 'the adapter yields the Ok payloads, records the first Err and stops there', okc)
     ob = [b for b in db.fn_bodies() if b['kind'] == 'assoc_fn' and 'FromIteratorIn<std::option::Option<T>>>::from_iter_in' in b['id'].replace('core::', 'std::')]
     for b in ob:
         I, r = arena.run_fn(ctx, b['id'], config)
-        cc = own_calls(r, trait='CollectIn::collect_in')
+        cc = own_calls(r, trait='CollectIn::collect_in') + [e for e in own_calls(r, trait='FromIteratorIn::from_iter_in') if e.callee != b['id']]
         okc = own_calls(r, 'Result::<T, E>::ok')
-        C.check('FromIteratorIn for Option', 'collects ok_or(()) items as a Result and returns .ok() of it', len(cc) == 1 and cc[0].args[1] == ('param', 2) and len(okc) == 1 and okc[0].args[0] == cc[0].ret and r.ret == okc[0].ret, '', b.get('span'))
+        okv = len(cc) == 1 and cc[0].args[1] == ('param', 2) and len(okc) == 1 and okc[0].args[0] == cc[0].ret and r.ret == okc[0].ret
+        if not okv and len(cc) == 1 and cc[0].args[1] == ('param', 2) and not okc and r.ret is not None:
+            # the same conversion spelled as a match: Ok(container) => Some(container), Err(()) => None
+            oks = [field_of(t, '0') for t, _ in arena.alternatives(I, cc[0].ret, set()) if t[0] == 'agg' and t[2] == 'Ok']
+            ra = [t for t, _ in arena.alternatives(I, r.ret, set())]
+            okv = bool(oks) and all(t[0] == 'agg' and (t[2] == 'None' or (t[2] == 'Some' and field_of(t, '0') in oks)) for t in ra) and {t[2] for t in ra} == {'None', 'Some'} \
+                and 'Result<' in (cc[0].callee or '')
+        C.check('FromIteratorIn for Option', 'collects ok_or(()) items as a Result and returns .ok() of it', okv, '', b.get('span'))
     ctx.floor(rule, C.n, 17, 'composition clauses for Vec trait impls and collect_in')
 
 
